@@ -782,11 +782,10 @@ Definition sbody (s : side) : list msg :=
 Definition ball (d : dir) (s : bstate) : list msg := sbody (bside d s) ++ ahand d (b_apc s).
 
 Record SInv (s : side) : Prop := mkSInv {
-  ib_filt : d_filt s = None;
   ib_ready : d_conn s = true -> d_wready s = true;
   ib_alive : d_rpc s <> BR_Dead;
   ib_q : forall p m, d_rpc s = BR_P p m ->
-           p <> Q6 /\ p <> Q7 /\ (p = Q8b true -> d_wready s = true);
+           p <> Q6 /\ (p = Q8b true -> d_wready s = true);
   ib_rbuf : d_rpc s = BR_Read -> d_rbuf s = []
 }.
 
@@ -809,10 +808,10 @@ Ltac c_tac :=
   rewrite ?cnt_app, ?cnt_nil; try lia.
 
 Lemma sstep_R_conserves : forall s x, SInv s ->
-  SInv (sstep_R s) /\ cnt x (sbody (sstep_R s)) = cnt x (sbody s)
-  /\ d_wready (sstep_R s) = d_wready s /\ d_conn (sstep_R s) = d_conn s.
+  SInv (sstep_R false s) /\ cnt x (sbody (sstep_R false s)) = cnt x (sbody s)
+  /\ d_wready (sstep_R false s) = d_wready s /\ d_conn (sstep_R false s) = d_conn s.
 Proof.
-  intros s x HI. pose proof HI as [Hf Hr Hal Hq Hrb].
+  intros s x HI. pose proof HI as [Hr Hal Hq Hrb].
   unfold sstep_R. destruct (d_rpc s) as [|p m|] eqn:Er; [| |contradiction].
   - destruct (d_wire s) as [|c w] eqn:Ew; [split; [exact HI|repeat split; reflexivity]|].
     pose proof (br_next_spec c) as Hn. pose proof (Hrb eq_refl) as Eb.
@@ -824,20 +823,18 @@ Proof.
       * intro E. destruct (fst (br_next c)); try discriminate; try contradiction. destruct Hn; auto.
     + c_tac. rewrite Er, Ew, Eb. c_tac.
       destruct (fst (br_next c)); try contradiction; destruct Hn as (E1 & E2); rewrite ?E1, ?E2; c_tac.
-  - destruct (Hq _ _ eq_refl) as (H6 & H7 & H8).
+  - destruct (Hq _ _ eq_refl) as (H6 & H8).
     pose proof (br_next_spec (d_rbuf s)) as Hn.
-    destruct p; try congruence; rewrite ?Hf.
-    + split; [constructor; cbn; auto; try discriminate; intros p m0 E; inversion E; subst; repeat split; discriminate|].
+    destruct p; try congruence.
+    + (* Q1 *) split; [constructor; cbn; auto; try discriminate; intros p m0 E; inversion E; subst; repeat split; discriminate|].
       split; [c_tac; rewrite ?Er; c_tac|split; reflexivity].
-    + split; [constructor; cbn; auto; try discriminate; intros p m0 E; inversion E; subst; repeat split; discriminate|].
-      split; [c_tac; rewrite ?Er; c_tac|split; reflexivity].
-    + split; [constructor; cbn; auto; try discriminate; intros p m0 E; inversion E; subst; repeat split; discriminate|].
-      split; [c_tac; rewrite ?Er; c_tac|split; reflexivity].
-    + split; [constructor; cbn; auto; try discriminate; intros p m0 E; inversion E; subst; repeat split; try discriminate|].
-      * intro E'. inversion E' as [E'']. rewrite E''. apply Hr; auto.
-      * split; [c_tac; rewrite ?Er; c_tac|split; reflexivity].
-    + destruct to_wrapper.
-      * pose proof (H8 eq_refl) as Hw. rewrite Hw. split; [|split; [|split; cbn; auto]].
+    + (* Q5: the single load of the filter *)
+      destruct (d_filt s) as [f|]; [destruct (matches f m)|];
+        (split; [constructor; cbn; auto; try discriminate; intros p m0 E; inversion E; subst; repeat split; discriminate|];
+         split; [c_tac; rewrite ?Er; c_tac|split; reflexivity]).
+    + (* Q7: kept in the device's pending queue *)
+      idtac.
+        split; [|split; [|split; cbn; auto]].
         -- constructor; cbn; auto.
            ++ destruct (fst (br_next (d_rbuf s))); try discriminate; contradiction.
            ++ intros p m0 E. destruct (fst (br_next (d_rbuf s))); try discriminate; try contradiction.
@@ -845,7 +842,24 @@ Proof.
            ++ intro E. destruct (fst (br_next (d_rbuf s))); try discriminate; try contradiction. destruct Hn; auto.
         -- c_tac. rewrite Er. c_tac.
            destruct (fst (br_next (d_rbuf s))); try contradiction; destruct Hn as (E1 & E2); rewrite ?E1, ?E2; c_tac.
-      * split; [|split; [|split; reflexivity]].
+    + (* Q8l *) split; [constructor; cbn; auto; try discriminate; intros p m0 E; inversion E; subst; repeat split; discriminate|].
+      split; [c_tac; rewrite ?Er; c_tac|split; reflexivity].
+    + (* Q8a *) split; [constructor; cbn; auto; try discriminate; intros p m0 E; inversion E; subst; repeat split; try discriminate|].
+      * intro E'. inversion E' as [E'']. rewrite E''. apply Hr; auto.
+      * split; [c_tac; rewrite ?Er; c_tac|split; reflexivity].
+    + (* Q8b *)
+      destruct to_wrapper.
+      * pose proof (H8 eq_refl) as Hw. rewrite Hw.
+        split; [|split; [|split; cbn; auto]].
+        -- constructor; cbn; auto.
+           ++ destruct (fst (br_next (d_rbuf s))); try discriminate; contradiction.
+           ++ intros p m0 E. destruct (fst (br_next (d_rbuf s))); try discriminate; try contradiction.
+              destruct Hn as (E1 & _). inversion E; subst. repeat split; discriminate.
+           ++ intro E. destruct (fst (br_next (d_rbuf s))); try discriminate; try contradiction. destruct Hn; auto.
+        -- c_tac. rewrite Er. c_tac.
+           destruct (fst (br_next (d_rbuf s))); try contradiction; destruct Hn as (E1 & E2); rewrite ?E1, ?E2; c_tac.
+      * idtac.
+        split; [|split; [|split; cbn; auto]].
         -- constructor; cbn; auto.
            ++ destruct (fst (br_next (d_rbuf s))); try discriminate; contradiction.
            ++ intros p m0 E. destruct (fst (br_next (d_rbuf s))); try discriminate; try contradiction.
@@ -859,7 +873,7 @@ Lemma sstep_C_conserves : forall s x, SInv s ->
   SInv (sstep_C s) /\ cnt x (sbody (sstep_C s)) = cnt x (sbody s)
   /\ d_wready (sstep_C s) = d_wready s /\ d_conn (sstep_C s) = d_conn s.
 Proof.
-  intros s x HI. pose proof HI as [Hf Hr Hal Hq Hrb]. unfold sstep_C.
+  intros s x HI. pose proof HI as [Hr Hal Hq Hrb]. unfold sstep_C.
   destruct (d_cpc s) eqn:Ec; split_match;
     (split; [constructor; cbn; auto | split; [c_tac; rewrite ?Ec, ?Heql, ?Heqb; c_tac | split; reflexivity]]).
 Qed.
@@ -868,7 +882,7 @@ Lemma sstep_X_conserves : forall s x, SInv s ->
   SInv (sstep_X s) /\ cnt x (sbody (sstep_X s)) = cnt x (sbody s)
   /\ d_wready (sstep_X s) = d_wready s /\ d_conn (sstep_X s) = d_conn s.
 Proof.
-  intros s x HI. pose proof HI as [Hf Hr Hal Hq Hrb]. unfold sstep_X.
+  intros s x HI. pose proof HI as [Hr Hal Hq Hrb]. unfold sstep_X.
   destruct (d_xpc s) eqn:Ex; split_match;
     (split; [constructor; cbn; auto | split; [c_tac; rewrite ?Ex, ?Heql, ?Heqb; c_tac | split; reflexivity]]).
 Qed.
@@ -877,7 +891,7 @@ Lemma semit_conserves : forall s x, SInv s ->
   SInv (semit s) /\ cnt x (sbody (semit s)) = cnt x (sbody s)
   /\ d_wready (semit s) = d_wready s /\ d_conn (semit s) = d_conn s.
 Proof.
-  intros s x HI. pose proof HI as [Hf Hr Hal Hq Hrb]. unfold semit.
+  intros s x HI. pose proof HI as [Hr Hal Hq Hrb]. unfold semit.
   destruct (d_spont s) as [|c r] eqn:Es; [split; [exact HI|repeat split; reflexivity]|].
   split; [constructor; cbn; auto|]. split; [c_tac; rewrite Es; c_tac|split; reflexivity].
 Qed.
@@ -926,13 +940,13 @@ Qed.
 Lemma bstep_A_conserves : forall cfg s x, legacy_ctor cfg = false -> Inv_B s ->
   Inv_B (bstep_A cfg s) /\ forall d', cnt x (ball d' (bstep_A cfg s)) = cnt x (ball d' s).
 Proof.
-  intros cfg s x Hl HI. pose proof HI as [[Hf1 Hr1 Hal1 Hq1 Hrb1] [Hf2 Hr2 Hal2 Hq2 Hrb2] Hrd].
+  intros cfg s x Hl HI. pose proof HI as [[Hr1 Hal1 Hq1 Hrb1] [Hr2 Hal2 Hq2 Hrb2] Hrd].
   unfold bstep_A. rewrite Hl.
   destruct (b_apc s) eqn:Ea; try destruct d; split_match;
     (split;
      [ constructor; [constructor|constructor|]; cbn; auto; try (intros; discriminate);
-       try (intros p0 m0 E0; destruct (Hq1 _ _ E0) as (? & ? & ?); repeat split; auto; fail);
-       try (intros p0 m0 E0; destruct (Hq2 _ _ E0) as (? & ? & ?); repeat split; auto; fail);
+       try (intros p0 m0 E0; destruct (Hq1 _ _ E0) as (? & ?); repeat split; auto; fail);
+       try (intros p0 m0 E0; destruct (Hq2 _ _ E0) as (? & ?); repeat split; auto; fail);
        try (intros _; apply (Hrd DIn); reflexivity);
        try (intros _; apply (Hrd DOut); reflexivity);
        try (intros [] Hx; cbn in Hx |- *; try discriminate; auto;
@@ -941,12 +955,12 @@ Proof.
      | intros []; unfold ahand; cbn [bside] in *; c_tac; rewrite ?Ea, ?Heql; unfold ahand; c_tac ]).
 Qed.
 
-Lemma bact_conserves : forall cfg a s x, legacy_ctor cfg = false -> Inv_B s ->
+Lemma bact_conserves : forall cfg a s x, legacy_ctor cfg = false -> legacy_filter cfg = false -> Inv_B s ->
   Inv_B (bact cfg a s) /\ forall d, cnt x (ball d (bact cfg a s)) = cnt x (ball d s).
 Proof.
-  intros cfg a s x Hl HI. destruct a; cbn [bact].
+  intros cfg a s x Hl Hlf HI. destruct a; cbn [bact].
   - apply bstep_A_conserves; auto.
-  - apply side_step_conserves; auto. intros; apply sstep_R_conserves; auto.
+  - rewrite Hlf. apply side_step_conserves; auto. intros; apply sstep_R_conserves; auto.
   - apply side_step_conserves; auto. intros; apply sstep_C_conserves; auto.
   - apply side_step_conserves; auto. intros; apply sstep_X_conserves; auto.
   - destruct (quiet cfg && negb (bdone s)); [split; auto|].
@@ -954,19 +968,19 @@ Proof.
   - split; auto.
 Qed.
 
-Lemma SInv_sinit : forall l held ev0 sp, SInv (sinit l None held ev0 sp).
+Lemma SInv_sinit : forall l f0 held ev0 sp, SInv (sinit l f0 held ev0 sp).
 Proof. intros. constructor; cbn; auto; try discriminate; try (intros; discriminate). Qed.
 
 Lemma Inv_B_init : forall si so, SInv si -> SInv so -> d_wready si = false \/ True ->
   Inv_B (binit2 si so).
 Proof. intros si so Hi Ho _. constructor; cbn; auto. intros []; discriminate. Qed.
 
-Lemma brun_conserves : forall cfg l s x, legacy_ctor cfg = false -> Inv_B s ->
+Lemma brun_conserves : forall cfg l s x, legacy_ctor cfg = false -> legacy_filter cfg = false -> Inv_B s ->
   Inv_B (brun cfg l s) /\ forall d, cnt x (ball d (brun cfg l s)) = cnt x (ball d s).
 Proof.
-  intros cfg l. unfold brun. induction l as [|a l IH]; intros s x Hl HI; cbn; auto.
-  destruct (bact_conserves cfg a s x Hl HI) as (H1 & E1).
-  destruct (IH _ x Hl H1) as (H2 & E2). split; auto. intro d. rewrite E2. apply E1.
+  intros cfg l. unfold brun. induction l as [|a l IH]; intros s x Hl Hlf HI; cbn; auto.
+  destruct (bact_conserves cfg a s x Hl Hlf HI) as (H1 & E1).
+  destruct (IH _ x Hl Hlf H1) as (H2 & E2). split; auto. intro d. rewrite E2. apply E1.
 Qed.
 
 (** bridge_conservation (the part of bridge_relays_exactly_once_per_direction that holds under
@@ -975,16 +989,16 @@ Qed.
     relayed to the peer, handled by the old connector instead, held, or still on its way.
     Nothing is relayed twice, nothing vanishes. *)
 Lemma bridge_conservation :
-  forall q li hi ei spi lo ho eo spo sched x d,
-    let s := brun (mkBC false q) sched (binit2 (sinit li None hi ei spi) (sinit lo None ho eo spo)) in
+  forall q li fi hi ei spi lo fo ho eo spo sched x d,
+    let s := brun (mkBC false q false) sched (binit2 (sinit li fi hi ei spi) (sinit lo fo ho eo spo)) in
     d_rpc (bside d s) <> BR_Dead
     /\ cnt x (ball d s) = cnt x (match d with DIn => hi ++ ei ++ msgs_of (concat spi)
                                           | DOut => ho ++ eo ++ msgs_of (concat spo) end).
 Proof.
-  intros q li hi ei spi lo ho eo spo sched x d s.
-  assert (H0 : Inv_B (binit2 (sinit li None hi ei spi) (sinit lo None ho eo spo)))
+  intros q li fi hi ei spi lo fo ho eo spo sched x d s.
+  assert (H0 : Inv_B (binit2 (sinit li fi hi ei spi) (sinit lo fo ho eo spo)))
     by (apply Inv_B_init; auto using SInv_sinit).
-  destruct (brun_conserves (mkBC false q) sched _ x eq_refl H0) as (HI & E). fold s in HI, E.
+  destruct (brun_conserves (mkBC false q false) sched _ x eq_refl eq_refl H0) as (HI & E). fold s in HI, E.
   split.
   - destruct HI as [Hi Ho _]. destruct d; cbn; [apply (ib_alive _ Hi)|apply (ib_alive _ Ho)].
   - rewrite E. destruct d; unfold ball, sbody, shand_c, shand_x, shand_r, ahand; cbn;
@@ -994,7 +1008,7 @@ Qed.
 (** The full statement, and what refutes it. *)
 Definition bridge_relays_exactly_once_per_direction_statement : Prop :=
   forall li hi ei spi lo ho eo spo sched,
-    let s := brun (mkBC false false) sched (binit2 (sinit li None hi ei spi) (sinit lo None ho eo spo)) in
+    let s := brun (mkBC false false false) sched (binit2 (sinit li None hi ei spi) (sinit lo None ho eo spo)) in
     bquiet s = true ->
     d_peer (b_in s) = hi ++ ei ++ msgs_of (concat spi)
     /\ d_peer (b_out s) = ho ++ eo ++ msgs_of (concat spo).
@@ -1013,19 +1027,19 @@ Definition br_sched_order : list baction :=
 Definition br_sched_loss : list baction := repeat BA 24 ++ repeat (BC DIn) 10.
 
 Lemma bridge_refuted :
-  (let s := brun (mkBC false false) br_sched_order (binit [p1] [] [[Some p2]]) in
+  (let s := brun (mkBC false false false) br_sched_order (binit [p1] [] [[Some p2]]) in
    bquiet s = true /\ d_peer (b_in s) = [p2; p1])
   /\
-  (let s := brun (mkBC false false) br_sched_loss (binit [] [p1] []) in
+  (let s := brun (mkBC false false false) br_sched_loss (binit [] [p1] []) in
    bquiet s = true /\ d_peer (b_in s) = [] /\ d_lost (b_in s) = [p1]).
 Proof. split; vm_compute; repeat split; reflexivity. Qed.
 
 Lemma bridge_statement_refuted : ~ bridge_relays_exactly_once_per_direction_statement.
 Proof.
   intro H. specialize (H true [p1] [] [[Some p2]] false [] [] [] br_sched_order). cbv zeta in H.
-  assert (E : bquiet (brun (mkBC false false) br_sched_order (binit [p1] [] [[Some p2]])) = true) by (vm_compute; reflexivity).
+  assert (E : bquiet (brun (mkBC false false false) br_sched_order (binit [p1] [] [[Some p2]])) = true) by (vm_compute; reflexivity).
   destruct (H E) as (H1 & _).
-  assert (X : list_eqb msg_eqb (d_peer (b_in (brun (mkBC false false) br_sched_order (binit [p1] [] [[Some p2]]))))
+  assert (X : list_eqb msg_eqb (d_peer (b_in (brun (mkBC false false false) br_sched_order (binit [p1] [] [[Some p2]]))))
                        ([p1] ++ [] ++ msgs_of (concat [[Some p2]])) = false) by (vm_compute; reflexivity).
   unfold binit in X. rewrite H1 in X. vm_compute in X. discriminate X.
 Qed.
@@ -1033,7 +1047,7 @@ Qed.
 (** Connector.__init__ as found: the reader thread dies on the half-built wrapper. *)
 Lemma bridge_legacy_ctor_refuted :
   exists sp sched,
-    d_rpc (b_in (brun (mkBC true false) sched (binit [] [] sp))) = BR_Dead.
+    d_rpc (b_in (brun (mkBC true false false) sched (binit [] [] sp))) = BR_Dead.
 Proof.
   exists [[Some p1]], (repeat BA 3 ++ [BEmit DIn] ++ repeat (BR DIn) 7). vm_compute. reflexivity.
 Qed.
@@ -1098,7 +1112,7 @@ Definition QInv (hi ho : list msg) (spi spo : list chunk) (s : bstate) : Prop :=
   if bdone s then QB hi spi (b_in s) /\ QB ho spo (b_out s)
   else QA hi spi DIn s /\ QA ho spo DOut s.
 
-Lemma QB_R : forall held sp x, QB held sp x -> QB held sp (sstep_R x).
+Lemma QB_R : forall held sp x, QB held sp x -> QB held sp (sstep_R false x).
 Proof.
   intros held sp x HQ. pose proof HQ as [(Hc & Hw & Hf & He & Hp) Hrp Hrb Hal Heq]. unfold sstep_R.
   destruct (d_rpc x) as [|p m|] eqn:Er; [| |contradiction].
@@ -1161,8 +1175,8 @@ Qed.
 Lemma bupd_id : forall d f s, f (bside d s) = bside d s -> bupd d f s = s.
 Proof. intros [] f [si so p] E; cbn in *; rewrite E; reflexivity. Qed.
 
-Lemma QA_idle_R : forall h sp d s, QA h sp d s -> sstep_R (bside d s) = bside d s.
-Proof. intros h sp d s [(E1 & _ & E3 & _) _ _ _ _ _ _ _]. unfold sstep_R. rewrite E3, E1. reflexivity. Qed.
+Lemma QA_idle_R : forall h sp d s lf, QA h sp d s -> sstep_R lf (bside d s) = bside d s.
+Proof. intros h sp d s lf [(E1 & _ & E3 & _) _ _ _ _ _ _ _]. unfold sstep_R. rewrite E3, E1. reflexivity. Qed.
 Lemma QA_idle_C : forall h sp d s, QA h sp d s -> sstep_C (bside d s) = bside d s.
 Proof. intros h sp d s [(_ & _ & _ & _ & E5 & E6 & _) _ _ _ _ _ _ _]. unfold sstep_C. rewrite E6, E5. reflexivity. Qed.
 Lemma QA_idle_X : forall h sp d s, QA h sp d s -> sstep_X (bside d s) = bside d s.
@@ -1222,11 +1236,11 @@ Ltac qa_fin :=
   try (rewrite <- app_assoc; assumption).
 
 Lemma QInv_step_A : forall hi ho spi spo q s,
-  QInv hi ho spi spo s -> QInv hi ho spi spo (bstep_A (mkBC false q) s).
+  QInv hi ho spi spo s -> QInv hi ho spi spo (bstep_A (mkBC false q false) s).
 Proof.
   intros hi ho spi spo q s H. unfold QInv in *.
   destruct (bdone s) eqn:Ed.
-  - assert (E : bstep_A (mkBC false q) s = s)
+  - assert (E : bstep_A (mkBC false q false) s = s)
       by (unfold bstep_A; unfold bdone in Ed; destruct (b_apc s); try discriminate; reflexivity).
     rewrite E, Ed. exact H.
   - destruct H as (HI & HO).
@@ -1251,7 +1265,7 @@ Proof.
 Qed.
 
 Lemma QInv_act : forall hi ho spi spo a s,
-  QInv hi ho spi spo s -> QInv hi ho spi spo (bact (mkBC false true) a s).
+  QInv hi ho spi spo s -> QInv hi ho spi spo (bact (mkBC false true false) a s).
 Proof.
   intros hi ho spi spo a s H. destruct a; cbn [bact].
   - apply QInv_step_A; auto.
@@ -1273,7 +1287,7 @@ Proof.
 Qed.
 
 Lemma QInv_run : forall hi ho spi spo l s0,
-  QInv hi ho spi spo s0 -> QInv hi ho spi spo (brun (mkBC false true) l s0).
+  QInv hi ho spi spo s0 -> QInv hi ho spi spo (brun (mkBC false true false) l s0).
 Proof.
   intros hi ho spi spo. unfold brun. induction l as [|a l IH]; intros s0 H0; cbn; auto.
   apply IH. apply QInv_act; auto.
@@ -1288,7 +1302,7 @@ Qed.
 Lemma bridge_quiet_link :
   forall li fi hi spi lo fo ho spo sched,
     (li = false -> hi = []) -> (lo = false -> ho = []) ->
-    let s := brun (mkBC false true) sched (binit2 (sinit li fi hi [] spi) (sinit lo fo ho [] spo)) in
+    let s := brun (mkBC false true false) sched (binit2 (sinit li fi hi [] spi) (sinit lo fo ho [] spo)) in
     bdone s = true ->
     QB hi spi (b_in s) /\ QB ho spo (b_out s).
 Proof.
@@ -1301,7 +1315,7 @@ Qed.
 Lemma bridge_quiet_link_quiescent :
   forall li fi hi spi lo fo ho spo sched,
     (li = false -> hi = []) -> (lo = false -> ho = []) ->
-    let s := brun (mkBC false true) sched (binit2 (sinit li fi hi [] spi) (sinit lo fo ho [] spo)) in
+    let s := brun (mkBC false true false) sched (binit2 (sinit li fi hi [] spi) (sinit lo fo ho [] spo)) in
     bquiet s = true ->
     d_peer (b_in s) = hi ++ msgs_of (concat spi) /\ d_peer (b_out s) = ho ++ msgs_of (concat spo).
 Proof.
@@ -1339,7 +1353,7 @@ Definition nvq_sched : list baction :=
   ++ concat (repeat [BR DIn; BX DIn; BR DOut; BX DOut] 30).
 
 Lemma nonvacuous_quiet :
-  let s := brun (mkBC false true) nvq_sched
+  let s := brun (mkBC false true false) nvq_sched
              (binit2 (sinit true None nvq_hi [] [[Some (mkMsg 7 4 false)]]) (sinit true (Some 3) nvq_ho [] [[Some (mkMsg 0 13 true); Some (mkMsg 3 14 false)]])) in
   bquiet s = true
   /\ d_peer (b_in s) = nvq_hi ++ [mkMsg 7 4 false] /\ d_peer (b_out s) = nvq_ho ++ [mkMsg 0 13 true; mkMsg 3 14 false].
@@ -1516,12 +1530,14 @@ Lemma sync_disable_may_drop :
   dropped s = [mkMsg 0 1 true] /\ sync_mode s = 0.
 Proof. vm_compute. split; reflexivity. Qed.
 
-(** A stale message filter on a device whose bridge is created UNDER TRAFFIC: the reader
-    thread is between the two filter loads of put_message when Bridge.__init__ resets the filter
-    to None; it then calls None and dies (TypeError).  Known finding
-    filter-reset-races-put-message. *)
-Lemma bridge_stale_filter_reader_dies :
+(** Device.put_message as found (two loads of the filter): a stale message filter on a device
+    whose bridge is created UNDER TRAFFIC -- the reader thread is between the two loads when
+    Bridge.__init__ resets the filter to None; it then calls None and dies (TypeError).  With the
+    single load (repaired) no schedule does that: [bridge_conservation] holds for arbitrary
+    stale filters. *)
+Lemma bridge_legacy_filter_refuted :
   exists sched,
-    d_rpc (b_in (brun (mkBC false false) sched
+    d_rpc (b_in (brun (mkBC false false true) sched
                    (binit2 (sinit true (Some 3) [] [] [[Some p1]]) (sinit false None [] [] [])))) = BR_Dead.
 Proof. exists ([BEmit DIn] ++ repeat (BR DIn) 3 ++ [BA] ++ [BR DIn]). vm_compute. reflexivity. Qed.
+
